@@ -174,6 +174,9 @@ type c11World struct {
 	reqTask                         int
 	procSignal                      chan struct{}
 	procDigest                      string
+	enteredSignal                   chan struct{} // closed when the core loop enters the request of the call in flight
+	overlap                         bool          // a call of the second client is in flight: replies are not pinned down
+	two                             bool          // this run has a second client
 	callActive                      bool
 	callEntered                     bool
 	callWaited                      bool
@@ -182,6 +185,9 @@ type c11World struct {
 	lastKind                        string
 
 	fs         *simrt.FaultFS
+	reconfigure func(nchan int) error // configures the inactive main source for another number of channels
+	mapMaybe    bool                  // a TES map may be loaded in the map server
+	nmaps       int
 	faultClass string
 	persist    bool // the failure stays: from its first occurrence on, every operation of the class fails
 	fires      int  // how often the injected failure has happened so far
@@ -285,16 +291,26 @@ func c11Body(env *simrt.Env) {
 	switch kind {
 	case 0:
 		c.name, c.main = "scripted", &w.ss.AnySource
+		c.reconfigure = func(n int) error {
+			w.ss.nchan = n
+			return nil
+		}
 	case 1:
 		c.name, c.main = "TRIANGLESOURCE", &c.sc.triangle.AnySource
-		if err := c.sc.ConfigureTriangleSource(&TriangleSourceConfig{Nchan: nchan, SampleRate: rate, Min: 100, Max: RawType(100 + triHalf)}, &ok); err != nil {
+		c.reconfigure = func(n int) error {
+			return c.sc.ConfigureTriangleSource(&TriangleSourceConfig{Nchan: n, SampleRate: rate, Min: 100, Max: RawType(100 + triHalf)}, &ok)
+		}
+		if err := c.reconfigure(nchan); err != nil {
 			simrt.Fail("harness.configure", "harness:configure", "%v", err)
 		}
 	case 3:
 		c.setupLancero(lanRows, lanCols)
 	default:
 		c.name, c.main = "SIMPULSESOURCE", &c.sc.simPulses.AnySource
-		if err := c.sc.ConfigureSimPulseSource(&SimPulseSourceConfig{Nchan: nchan, SampleRate: rate, Pedestal: 1000, Amplitudes: []float64{6000}, Nsamp: spNsamp}, &ok); err != nil {
+		c.reconfigure = func(n int) error {
+			return c.sc.ConfigureSimPulseSource(&SimPulseSourceConfig{Nchan: n, SampleRate: rate, Pedestal: 1000, Amplitudes: []float64{6000}, Nsamp: spNsamp}, &ok)
+		}
+		if err := c.reconfigure(nchan); err != nil {
 			simrt.Fail("harness.configure", "harness:configure", "%v", err)
 		}
 	}
@@ -310,10 +326,7 @@ func c11Body(env *simrt.Env) {
 	c.startMain()
 	// records should flow in most runs: auto triggers on every channel
 	if simrt.Draw(4) != 3 {
-		all := make([]int, nchan)
-		for i := range all {
-			all[i] = i
-		}
+		all := c.allChannels()
 		ts := TriggerState{AutoTrigger: true, AutoDelay: time.Duration(float64(c.nsamp+simrt.Draw(2*c.nsamp)) / rate * float64(time.Second)), EdgeLevel: 100, EdgeRising: true}
 		c.call(&c11Req{kind: "ConfigureTriggers", desc: "auto on all channels", expect: c11OK, needsSource: true,
 			do: func() error { return c.sc.ConfigureTriggers(&FullTriggerState{ChannelIndices: all, TriggerState: ts}, &ok) }})
@@ -321,8 +334,17 @@ func c11Body(env *simrt.Env) {
 
 	c.nreq = 8 + simrt.Draw(16)
 	restarts := 0
+	c.two = simrt.Draw(3) == 2
+	maxRestarts := 2
+	if c.two {
+		maxRestarts = 4
+	}
 	for i := 0; i < c.nreq; i++ {
-		if c.state() == c11Down && restarts < 2 && simrt.Draw(3) == 2 {
+		if c.two && simrt.Draw(4) == 3 && c.twoClientEpisode() {
+			c.pollRawBlocks()
+			continue
+		}
+		if c.state() == c11Down && restarts < maxRestarts && simrt.Draw(3) == 2 {
 			restarts++
 			c.startMain()
 		}
@@ -404,6 +426,10 @@ func (c *c11World) monitor(ev simrt.RegionEvent) {
 			c.reqTask = ev.TaskID
 			if c.callActive {
 				c.callEntered = true
+				if c.enteredSignal != nil {
+					close(c.enteredSignal)
+					c.enteredSignal = nil
+				}
 			}
 		} else {
 			c.inRequest--
@@ -493,6 +519,20 @@ func (c *c11World) startMain() {
 	}
 	c.stopHardware()
 	var err error
+	if c.starts > 0 && c.reconfigure != nil && simrt.Draw(3) == 2 {
+		// a restart with another number of channels (the source is reconfigured while it is inactive)
+		n := 1 + simrt.Draw(4)
+		if err := c.reconfigure(n); err != nil {
+			simrt.Fail("harness.configure", "harness:configure", "reconfiguring the inactive %s source for %d channels: %v", c.name, n, err)
+		}
+		if n != c.nchanMain {
+			simrt.Hit("restart-with-other-channel-count")
+			if c.rawPending() {
+				simrt.Hit("restart-with-other-channel-count-and-unfinished-raw-block")
+			}
+		}
+		c.nchanMain = n
+	}
 	if c.kind == 0 {
 		c.w.sent, c.w.fed = 0, 0
 		err = c.w.startScripted()
@@ -508,7 +548,7 @@ func (c *c11World) startMain() {
 		simrt.Fail("harness.start", "harness:start", "Start of the %s source failed: %v", c.name, err)
 	}
 	c.noteStarted(c.main, c.nchanMain, false)
-	c.env.Op("start %s (#%d)", c.name, c.starts)
+	c.env.Op("start %s (#%d, %d channels)", c.name, c.starts, c.nchanMain)
 	if c.kind == 0 {
 		c.hwStop, c.hwDone, c.termCh, c.endNow = make(chan struct{}), make(chan struct{}), make(chan struct{}), make(chan struct{})
 		stop, done, term := c.hwStop, c.hwDone, c.termCh
@@ -704,6 +744,7 @@ type c11Req struct {
 	expect      int  // reply kind demanded on a source that is healthy for the whole call
 	needsSource bool // the property's "error if no source is running" applies to this kind
 	queued      bool // goes through runLaterIfActive
+	isStart     bool // a WriteControl START: if refused, it must leave the writing state as it was
 	badIndex    bool // carries an out-of-range channel index
 	do          func() error
 	onOK        func()
@@ -717,6 +758,10 @@ func (c *c11World) call(r *c11Req) {
 	callStart := time.Now()
 	c.callStart = callStart
 	stale := st == c11Down && c.selfEnded && c.sc.isSourceActive
+	snapBefore := ""
+	if r.isStart && st == c11Healthy {
+		snapBefore = c.writingSnapshot()
+	}
 	c.callActive, c.callEntered, c.callWaited, c.callKind, c.callState = true, false, false, r.kind, st
 
 	done := make(chan struct{})
@@ -736,7 +781,7 @@ func (c *c11World) call(r *c11Req) {
 
 	c.noteFires()
 	fired := c.fires > firesBefore
-	healthy := st == c11Healthy && !c.termSent
+	healthy := st == c11Healthy && !c.termSent && !c.overlap
 	if c.termSent && st == c11Healthy && !c.callEntered && r.queued && c.termAt.Sub(callStart) > 100*time.Millisecond {
 		// the request had been waiting for the core loop for more than one re-check period of the RPC layer
 		// when the source ended itself, and the core loop never took it
@@ -773,12 +818,31 @@ func (c *c11World) call(r *c11Req) {
 		if c.fires > 1 {
 			simrt.Hit("handler-hit-by-io-failure-again")
 		}
+	case c.overlap:
+		// the other client's Start or Stop is in flight: either order is a valid history
 	case st == c11Down && r.needsSource && err == nil:
 		simrt.Fail("C11.reply-kind", "reply:success-without-source:"+r.kind, "%s(%s) answered success although no source is running (%s)", r.kind, r.desc, c.whyDown())
 	case healthy && r.expect == c11OK && err != nil:
 		simrt.Fail("C11.reply-kind", "reply:error-for-valid:"+r.kind, "%s(%s) is a well-formed request on a running source but was answered with the error %q", r.kind, r.desc, reply)
 	case healthy && r.expect == c11Err && err == nil:
 		simrt.Fail("C11.reply-kind", "reply:success-for-invalid:"+r.kind, "%s(%s) has invalid arguments but was answered with success", r.kind, r.desc)
+	}
+	if r.isStart && st == c11Healthy && c.mapMaybe {
+		switch {
+		case err == nil:
+			simrt.Hit("start-accepted-with-map-loaded")
+		case strings.Contains(reply, "map file invalidated"):
+			simrt.Hit("start-refused-map-invalidated")
+		default:
+			simrt.Hit("start-refused-with-map-loaded")
+		}
+	}
+	if r.isStart && healthy && err != nil && !fired && c.state() == c11Healthy {
+		// a START that is refused leaves nothing behind: reported state and writers as before
+		if snapAfter := c.writingSnapshot(); snapAfter != snapBefore {
+			simrt.Fail("C11.refused-start", "reply:refused-start-changed-state", "%s(%s) was refused (%s) but changed the writing state\nbefore: %s\nafter:  %s", r.kind, r.desc, reply, snapBefore, snapAfter)
+		}
+		simrt.Hit("start-refused-cleanly")
 	}
 	if err == nil {
 		if r.onOK != nil {
@@ -851,6 +915,28 @@ func (c *c11World) checkProgress(after string, need int) {
 			step *= 2
 		}
 	}
+}
+
+// rawPending: a raw-block request was accepted and its file has not reached its final name.
+func (c *c11World) rawPending() bool {
+	c.pollRawBlocks()
+	for _, n := range c.rawNames {
+		if !c.rawSeen[n] {
+			return true
+		}
+	}
+	return false
+}
+
+// writingSnapshot renders the reported writing state and which channels have which writers.
+func (c *c11World) writingSnapshot() string {
+	ws := c.any.ComputeWritingState()
+	var b strings.Builder
+	fmt.Fprintf(&b, "reported{active=%v paused=%v ljh22=%v ljh3=%v off=%v pattern=%q}", ws.Active, ws.Paused, ws.WriteLJH22, ws.WriteLJH3, ws.WriteOFF, filepath.Base(ws.FilenamePattern))
+	for i, dsp := range c.any.processors {
+		fmt.Fprintf(&b, " ch%d{ljh22=%v ljh3=%v off=%v paused=%v}", i, dsp.DataPublisher.HasLJH22(), dsp.DataPublisher.HasLJH3(), dsp.DataPublisher.HasOFF(), dsp.DataPublisher.WritingPaused)
+	}
+	return b.String()
 }
 
 // pollRawBlocks notices raw-data block files that have reached their final name.
